@@ -8,4 +8,4 @@ Extraction Language OCaml.
 Extraction "model.ml"
   Registry.run Registry.a_run Registry.trace Registry.trace_okb
   Sched.exec Sched.all_done Sched.strace Sched.once_okb Sched.visible_okb
-  Exec.exec_op Exec.printed_args Exec.doc_rejects ExecSpec.sem_op ExecSpec.nodup_keys ExecSpec.wf_doc.
+  Exec.exec_op Exec.printed_args Exec.doc_rejects Exec.get_field_def ExecSpec.sem_op ExecSpec.nodup_keys ExecSpec.wf_doc.
